@@ -190,6 +190,9 @@ mod test;
 
 mod mio_source;
 
+#[cfg(rustdds_verif)]
+pub mod verif;
+
 // Public modules
 pub mod dds; // this is public, but not advertised
 
